@@ -3,7 +3,7 @@ CONSTANTS
   MKind = "bytes"
   MEty = "u8"
   Prefixes <- PrefNew
-  OpNames = {"push", "pop", "insert", "remove", "set", "swap", "get", "append", "split_at"}
+  OpNames = {"push", "pop", "insert", "remove", "set", "swap", "get", "iter", "append", "split_at"}
   MaxOps = 40
   NumSel <- NumSel_none
 SPECIFICATION SimSpec
